@@ -1,0 +1,30 @@
+//go:build verif
+
+// Round 7: the function literals of NSQAdmin.Main (C17 C18) - possible since the engine follows a call through a variable of the enclosing
+// function that is assigned once, with a function literal, before the calling literal is created (`exitFunc`). Comment-only file.
+// sync.Once.Do is recorded in the free ghosts r7OnceDos / r7OnceOn / r7OnceFn (extern in nsqd/zz_contracts_ephemeral_verif.go).
+
+package nsqadmin
+
+// Main$1 = exitFunc(err): through the once guard, handing over Main$1$1 (one send of the error on the exit channel).
+//@ ghost r7AdmExitReports int
+//@ ghost r7AdmExitReported error
+//@ ghostgroup r7AdmExitReports, r7AdmExitReported
+//@ func (n *NSQAdmin) Main$1(err error)
+//@   props C17 C18
+//@   nochan
+//@   ensures[through-the-once-guard] r7OnceDos == old(r7OnceDos) + 1 && r7OnceFn == "(*github.com/nsqio/nsq/nsqadmin.NSQAdmin).Main$1$1"
+//@   modifies r7AdmExitReports
+//@   onreturn r7AdmExitReports := r7AdmExitReports + 1
+//@   onreturn r7AdmExitReported := err
+//@ func (n *NSQAdmin) Main$1$1()
+//@   props C17 C18
+//@   requires n != nil
+//@   ensures[passes-the-error-on-once] sent(exitCh) == old(sent(exitCh)) + 1 && lastsent(exitCh) == err
+//@   modifies chanstore(error)
+// Main$2 (the HTTP server goroutine): one server loop on nsqadmin's own listener; when it returns, its result is reported through exitFunc.
+//@ func (n *NSQAdmin) Main$2()
+//@   props C17 C18
+//@   requires n != nil && n.httpListener != nil && httpServer != nil
+//@   ensures[one-http-server-and-its-result-reported] r7ServeReturns == old(r7ServeReturns) + 1 && r7AdmExitReported == r7ServeResult
+//@   ensures[on-the-daemons-listener] r5HSrvListener == old(n.httpListener)
